@@ -65,7 +65,7 @@ def handle(req, handles, A, V, dill):
             for op in req['ops']:
                 A.apply_write(a, op, keys, vals)
             return ('ok', None)
-        return A.observe(a)
+        return A.observe(a, req.get('view', 'items'), [A.build_key(k) for k in req.get('keys', [])])
     if cmd == 'call':
         # generic hook used by C04/C17: run harness function <mod>.<fn>(**args)
         import importlib
